@@ -1,6 +1,7 @@
 package props
 
 import (
+	"encoding/base64"
 	"fmt"
 	"strings"
 	"testing"
@@ -28,10 +29,14 @@ type monC06 struct {
 	pw      map[string]string   // pid -> model password
 	hashes  map[string][]string // pid|canon -> hashes seen
 	changes int
+	// revoked: raw bytes of every remember cookie that was issued to the account before one of its password
+	// changes - spent or not, wherever a copy may be (the monitor's own record, not storage's)
+	revoked map[string]map[string]bool
 }
 
 func (c *monC06) Init(m *Machine) {
 	c.pw, c.hashes = map[string]string{}, map[string][]string{}
+	c.revoked = map[string]map[string]bool{}
 	for _, a := range m.C.Cfg.Accounts {
 		c.pw[a.PID] = a.Password
 	}
@@ -96,6 +101,14 @@ func (c *monC06) checkChanged(m *Machine, s *Step, pid, newPW, how string) *Viol
 			return violation("C06", "other-account-tokens-affected:"+how, "%s of %q changed the remember tokens of %q", how, pid, p)
 		}
 	}
+	if how == "update" || m.C.Cfg.Has("remember") {
+		if c.revoked[pid] == nil {
+			c.revoked[pid] = map[string]bool{}
+		}
+		for _, kc := range m.KB.Accts[m.KB.idx(pid)].Cookies {
+			c.revoked[pid][cookieRaw(kc)] = true
+		}
+	}
 	c.pw[pid] = newPW
 	c.changes++
 	m.flag("changed:" + how)
@@ -107,6 +120,22 @@ func (c *monC06) checkChanged(m *Machine, s *Step, pid, newPW, how string) *Viol
 
 func (c *monC06) After(m *Machine, s *Step) *Violation {
 	op := s.Op
+	// behavioural half of the remember clause: a request without a session user that presents a cookie issued to an
+	// account before its password change must not come out as that account (whatever storage says about tokens)
+	if r := s.Resp; r != nil && (op.K == "visit" || op.K == "get" || op.K == "set") && r.UIDBefore() == "" {
+		if ck, ok := r.CookBefore["rm"]; ok {
+			raw := cookieRaw(ck)
+			for pid, set := range c.revoked {
+				if !set[raw] {
+					continue
+				}
+				m.flag("revoked-cookie-presented")
+				if r.UID() == pid || r.Rec.ProbeUID == pid {
+					return violation("C06", "revoked-cookie-authenticated", "a remember cookie issued to %q before its password change re-authenticated it (session uid %q, probe saw %q)", pid, r.UID(), r.Rec.ProbeUID)
+				}
+			}
+		}
+	}
 	switch op.K {
 	case "updpw":
 		ka := m.KB.acct(op.A % max(1, len(m.KB.Accts)))
@@ -191,9 +220,17 @@ func (c *monC06) After(m *Machine, s *Step) *Violation {
 
 func (c *monC06) End(m *Machine) *Violation { return nil }
 
+// cookieRaw: the bytes a cookie value decodes to (two spellings of the same bytes are the same token), else the value itself.
+func cookieRaw(c string) string {
+	if raw, err := base64.URLEncoding.DecodeString(c); err == nil {
+		return string(raw)
+	}
+	return c
+}
+
 var kindsC06 = []wk{
 	{"login", 26}, {"recstart", 6}, {"recend", 10}, {"updpw", 10}, {"newsess", 8}, {"visit", 8}, {"steal", 2}, {"setcookie", 6},
-	{"snip:recover", 12}, {"snip:remember", 10}, {"logout", 2}, {"advance", 3}, {"lock", 2}, {"unlock", 2},
+	{"snip:recover", 12}, {"snip:remember", 10}, {"snip:rmrevoke", 10}, {"logout", 2}, {"advance", 3}, {"lock", 2}, {"unlock", 2},
 }
 
 var profC06 = profile{
